@@ -430,7 +430,13 @@ class FitFacts:
             v = n.stmt.value
             if isinstance(v, ast.Name) and v.id == "self":
                 continue
+            if isinstance(v, ast.Name) and v.id != "self":
+                vals_ = astq.assigned_values(fn, v.id)
+                if len(vals_) == 1 and isinstance(vals_[0], ast.Call):
+                    v = vals_[0]  # a local bound once to a call result: judge the call
             if isinstance(v, ast.Call):
+                if astq.call_name(v) in ("clone", "deepcopy", "copy") and not (isinstance(v.func, ast.Attribute) and dotted(v.func.value) == "self"):
+                    return False  # a fresh object, never the estimator itself
                 t = self.flow.resolve_call(v, module, cls, defcls)
                 if t.kind == "method" and t.func is not None and depth > 0:
                     r = self.returns_self(t.func, t.module, cls, t.defcls, depth - 1)
@@ -790,6 +796,19 @@ def rule_R5(ctx, repo, flow):
             if s is not None:
                 seps.append(s)
                 fmt_ok = True
+    if not seps:
+        # the nested keys may be produced by a helper (generator / function) that yields or returns (key, value) pairs
+        for h in _helper_scope(meta, gp)[1:]:
+            for n in ast.walk(h):
+                cand = None
+                if isinstance(n, (ast.Yield, ast.Return)) and isinstance(n.value, ast.Tuple) and n.value.elts:
+                    cand = n.value.elts[0]
+                elif isinstance(n, ast.Subscript) and isinstance(n.ctx, ast.Store):
+                    cand = n.slice
+                s = _format_sep(cand) if cand is not None else None
+                if s is not None:
+                    seps.append(s)
+                    fmt_ok = True
     ctx.check(upd and fmt_ok and all(s == "__" for s in seps), "R5", "_get_params:nested-keys",
               "components added by name and as `name__key` from the same attribute",
               "_get_params does not expose components under `name` and `name__key` (separators found: %r, update from attr: %s)" % (seps, upd),
@@ -925,7 +944,9 @@ def _meta_exact(ctx, repo, meta, mod, gp, sp):
                     break
         ctx.check(bad is None, "R5", "_get_params:deep-switch", "shallow parameters iff deep is off, component-expanded parameters iff deep is on",
                   "_get_params: %s" % bad, loc, witness={"call": "get_params(deep=True) / get_params(deep=False)"} if bad else None)
-    inner = [c for c in astq.calls(gp) if astq.call_name(c) == "get_params" and not (isinstance(c.func.value, ast.Call) and dotted(c.func.value.func) == "super")]
+    inner = [c for h_ in _helper_scope(meta, gp) for c in ast.walk(h_) if isinstance(c, ast.Call) and astq.call_name(c) == "get_params"
+             and isinstance(c.func, ast.Attribute) and not (isinstance(c.func.value, ast.Call) and dotted(c.func.value.func) == "super")
+             and dotted(c.func.value) != "self"]
     ok = bool(inner) and all(all(astq.const_value(k.value, "?") is True for k in c.keywords if k.arg == "deep")
                              and all(astq.const_value(a, "?") is True for a in c.args[:1]) for c in inner)
     ctx.check(ok, "R5", "_get_params:component-deep", "each component is asked for its deep parameters",
@@ -1132,6 +1153,24 @@ def _reaching_def(stmts, target_stmt, name):
                 if r is not None:
                     return r
     return None
+
+
+def _helper_scope(meta, fn, depth=2):
+    """``fn`` plus the own helper methods it calls (``self.h`` / ``cls.h`` / ``Class.h``), transitively; nested defs are part of
+    each function's tree already."""
+    out, work = [fn], [(fn, depth)]
+    while work:
+        f, d = work.pop()
+        if d <= 0:
+            continue
+        for c in ast.walk(f):
+            if isinstance(c, ast.Call) and isinstance(c.func, ast.Attribute) and isinstance(c.func.value, ast.Name) \
+                    and c.func.value.id in ("self", "cls", meta.name) and c.func.attr in meta.methods:
+                h = meta.methods[c.func.attr]
+                if not any(h is x for x in out):
+                    out.append(h)
+                    work.append((h, d - 1))
+    return out
 
 
 def _param_dict_name(gp):
